@@ -17,7 +17,7 @@ import os
 
 import vlib
 
-KEEP = {"Cfg", "Msg", "SrvConn", "SrvData", "Ret", "End"}
+KEEP = {"Cfg", "Msg", "Lookup", "SrvConn", "SrvData", "Ret", "End"}
 
 CFG = """SPECIFICATION %(spec)s
 CONSTANTS
